@@ -241,7 +241,29 @@ impl<T: Hash + Eq + Clone> TopoSort<T> {
     /// dependencies, returns None.
     pub fn peek_all_cyclic(&self) -> Option<Vec<&T>> {
         if self.in_cycle() {
-            Some(self.top.keys().collect())
+            // only the items that actually lie on a cycle, not the items merely waiting on one
+            let on_cycle: Vec<&T> = self
+                .top
+                .keys()
+                .filter(|start| {
+                    let mut seen: IndexSet<&T> = IndexSet::default();
+                    let mut stack: Vec<&T> = vec![start];
+                    while let Some(cur) = stack.pop() {
+                        if let Some(deps) = self.top.get(cur) {
+                            for p in &deps.parents {
+                                if p == *start {
+                                    return true;
+                                }
+                                if self.top.contains_key(p) && seen.insert(p) {
+                                    stack.push(p);
+                                }
+                            }
+                        }
+                    }
+                    false
+                })
+                .collect();
+            Some(on_cycle)
         } else {
             None
         }
